@@ -14,7 +14,7 @@ variable {cfg : JointConfig} {c0 : Nat} {h : List Sys}
 
 
 /-- a node that acknowledged an event has reached the event's term -/
-theorem acked_term (H : Hyp2 cfg c0 h) {n : Nat} {a : Sys} (ha : h[n]? = some a) {E : Ev}
+theorem acked_term (H : Hyp2w cfg c0 h) {n : Nat} {a : Sys} (ha : h[n]? = some a) {E : Ev}
     (hE : E.ok h) {v : Nat} {st : NState} (hv : a.node v = some st) (hk : AckedMem a n E v st) :
     E.t ≤ st.raft.term := by
   obtain ⟨_, _, hc0⟩ := Ev.leaderLog H hE
@@ -35,7 +35,7 @@ theorem acked_term (H : Hyp2 cfg c0 h) {n : Nat} {a : Sys} (ha : h[n]? = some a)
 /-- **the sender of an accepted batch agrees with a log that holds the committed entry**: wherever the
 sender's log (a leader's log of the event's term or a later one) holds an entry up to the committed
 index, the node's log holds the same entry -/
-theorem compat_has (H : Hyp2 cfg c0 h) {n : Nat} (S : SAll h c0 n) {a : Sys} (ha : h[n]? = some a)
+theorem compat_has (H : Hyp2w cfg c0 h) {n : Nat} (S : SAll h c0 n) {a : Sys} (ha : h[n]? = some a)
     {v : Nat} {st : NState} (hv : a.node v = some st) {E : Ev} (hE : E.ok h)
     (hh : Has (FL h c0 st) E.c E.t) {τ : Nat} {L : LLog} (hL : LeaderLog h c0 n τ L)
     (hle : E.t ≤ τ) :
@@ -68,12 +68,12 @@ theorem acked_back {n : Nat} {a b : Sys} {E : Ev} {v : Nat} {st st' : NState}
     · exact .inr (hq x c)
   · exact .inr ⟨h1, by omega, h3⟩
 
-theorem retm_step (H : Hyp3 cfg c0 h) {n : Nat} (S : SAll h c0 n) {a b : Sys}
+theorem retm_step (H : Hyp3a cfg c0 h) {n : Nat} (S : SAll h c0 n) {a b : Sys}
     (ha : h[n]? = some a) (hb : h[n + 1]? = some b) :
     ∀ E : Ev, E.ok h → ∀ v st', b.node v = some st' → AckedMem b (n + 1) E v st' →
       Has (FL h c0 st') E.c E.t := by
   intro E hE v st' hvb hk
-  have H2 := H.toHyp2
+  have H2 := H.toHyp2w
   have Sa := S n a (Nat.le_refl _) ha
   obtain ⟨hEl, hEh, hc0⟩ := Ev.leaderLog H2 hE
   obtain ⟨k, stk, stk', hka, hkb, hoth, hs⟩ := stp_of H2 ha hb
@@ -192,20 +192,20 @@ theorem retm_step (H : Hyp3 cfg c0 h) {n : Nat} (S : SAll h c0 n) {a b : Sys}
 
 
 /-- the snapshot point of a leader's log -/
-theorem LeaderLog.snap (H : Hyp2 cfg c0 h) {N t : Nat} {L : LLog} (hL : LeaderLog h c0 N t L) :
+theorem LeaderLog.snap (H : Hyp2w cfg c0 h) {N t : Nat} {L : LLog} (hL : LeaderLog h c0 N t L) :
     L.snapIdx = c0 := by
   obtain ⟨m, s, l, st, _, a2, a3, _, _, rfl⟩ := hL
   exact (node_full H m s a2 l st a3).log.snap
 
 /-- two leaders' logs that hold the same entry at `c` are equal up to `c` -/
-theorem ll_eq_below (H : Hyp2 cfg c0 h) {N N' t t' : Nat} {L L' : LLog} (h1 : LeaderLog h c0 N t L)
+theorem ll_eq_below (H : Hyp2w cfg c0 h) {N N' t t' : Nat} {L L' : LLog} (h1 : LeaderLog h c0 N t L)
     (h2 : LeaderLog h c0 N' t' L') {c τ : Nat} (hh : Has L c τ) (hh' : Has L' c τ) :
     EqUpTo L L' c := by
   obtain ⟨m, s, l, st, _, a2, a3, _, _, rfl⟩ := h1
   exact eq_ll H a2 a3 h2 hh hh'
 
 /-- an acknowledgement of a node that is around carries a term the node has reached -/
-theorem ack_term_le (H : Hyp2 cfg c0 h) {n : Nat} {a : Sys} (ha : h[n]? = some a) {v : Nat}
+theorem ack_term_le (H : Hyp2w cfg c0 h) {n : Nat} {a : Sys} (ha : h[n]? = some a) {v : Nat}
     {st : NState} (hv : a.node v = some st) {x : Message} (hx : x ∈ a.net ∨ x ∈ st.raft.msgs)
     (hack : isAck x) (hfrm : x.frm = v) (hidx : x.index ≠ 0) : x.term ≤ st.raft.term := by
   obtain ⟨hq, hn⟩ := ack_inv H n a ha
@@ -213,12 +213,12 @@ theorem ack_term_le (H : Hyp2 cfg c0 h) {n : Nat} {a : Sys} (ha : h[n]? = some a
   · exact ((hn x c hack hidx).1 st (by rw [hfrm]; exact hv)).1
   · exact (hq v st hv x c hack hidx).2.1
 
-theorem a2m_step (H : Hyp3 cfg c0 h) {n : Nat} (S : SAll h c0 n) {a b : Sys}
+theorem a2m_step (H : Hyp3a cfg c0 h) {n : Nat} (S : SAll h c0 n) {a b : Sys}
     (ha : h[n]? = some a) (hb : h[n + 1]? = some b) :
     ∀ v st', b.node v = some st' → ∀ x, (x ∈ b.net ∨ x ∈ st'.raft.msgs) → isAck x → x.frm = v →
       c0 < x.index → x.term = st'.raft.term → Promise h c0 (n + 1) x (FL h c0 st') := by
   intro v st' hvb x hx hack hfrm hidx hterm
-  have H2 := H.toHyp2
+  have H2 := H.toHyp2w
   have Sa := S n a (Nat.le_refl _) ha
   have hx0 : x.index ≠ 0 := by omega
   obtain ⟨k, stk, stk', hka, hkb, hoth, hs⟩ := stp_of H2 ha hb
